@@ -326,6 +326,8 @@ pub fn scope(name: &str) -> Scope {
             false,
             &['a', 'b', 'c'],
         ),
+        // reluctant quantifiers over alternatives of which only one captures
+        "CAPR" => Scope::new("CAPR", &["(?:(a)|bc)", "(?:(a)|b)", "(a)", "a", "b", "c"], &["+?", "*?", "??", "{2,}?"], false, &['a', 'b', 'c']),
         // back-references to groups that are optional, possibly empty, inside a
         // repetition or in a later alternative (composite leaves)
         "BR" => Scope::new(
@@ -365,7 +367,7 @@ pub fn scope(name: &str) -> Scope {
         // optional groups
         "BR3B" => Scope::new(
             "BR3B",
-            &["a", "c", "\\3", "(b)", "(b)??", "(b)?", "(?:a(b)c|ab)", "(?:(b)|a)", "(?:a|ab)", "(?:c|(b))", "(b)??\\3"],
+            &["a", "c", "\\3", "(b)", "(b)??", "(b)?", "(?:a(b)c|ab)", "(?:(b)|a)", "(?:a|ab)", "(?:c|(b))", "(b)??\\3", "(?:(b)|b)", "(?:(b)|a\\3)+", "(?:(b)a)?"],
             &[],
             false,
             &['a', 'b', 'c'],
@@ -389,6 +391,9 @@ pub fn scope(name: &str) -> Scope {
         // case: inputs of length 3 over a small alphabet (runs that mix case)
         "CI2" => Scope::new("CI2", &["a", "A", "b", "[a-b]"], &["*", "+", "?"], true, &['a', 'A', 'b', 'B']),
         "CI2A" => scope("CI2").wrapped("CI2A", "^(?:", ")$", &['a', 'A', 'b', 'B']),
+        // anchors and the dot together with flag i (line starts found by a scan that must
+        // stay case-blind)
+        "ANI" => Scope::new("ANI", &["a", "A", "^", "$", ".", "\\n"], &["?", "*"], false, &['a', 'A', '\n', 'x']),
         // an optional or repeated leading group that contains an anchor
         "ANQ" => Scope::new("ANQ", &["a", "b", "(?:^a)", "(?:^a?)", "(^a)", "(?:a$)", "(?:^|a)", "(?:^-)"], &["?", "*", "+"], false, &['a', 'b', '\n', '-']),
         // negated groups with a subtraction (the order of negation and subtraction)
@@ -457,7 +462,7 @@ pub const T_QUANT: [&str; 11] = ["a", "{", "}", ",", "1", "2", "0", "?", " ", "+
 pub const T_GROUP: [&str; 8] = ["(", "(?:", ")", "a", "\\1", "\\2", "|", "*"];
 
 /// Class syntax after an escaped backslash (whitespace preprocessor of flag x).
-pub const T_XCLS: [&str; 11] = ["a", "b", "\\\\", "\\[", "\\]", "[", "]", "[^", "-[", "(", ")"];
+pub const T_XCLS: [&str; 12] = ["a", "b", "\\\\", "\\[", "\\]", "[", "]", "[^", "-[", "(", ")", "?"];
 
 /// Category and block escapes inside and outside character groups (whitespace
 /// between the braces is never layout).
